@@ -4,7 +4,8 @@ From Coq Require Import List String Bool ZArith Permutation.
 From Helm Require Import Values.Tree Common.Assoc
   Misc.Panics Misc.PanicsStorage Misc.PanicsStorageProofs
   Misc.PanicsDeps Misc.PanicsDepsProofs Misc.PanicsIndex Misc.PanicsIndexProofs
-  Misc.PanicsSort Misc.PanicsSortProofs Misc.PanicsSchema Misc.PanicsSchemaProofs.
+  Misc.PanicsSort Misc.PanicsSortProofs Misc.PanicsSchema Misc.PanicsSchemaProofs
+  Values.Strvals Misc.PanicsStrvals Misc.PanicsStrvalsProofs Gen.C20Tables.
 Import ListNotations.
 Local Open Scope string_scope.
 
@@ -247,3 +248,66 @@ Theorem C20_schema_walk_refuted :
     is_panic (validate_schema unit (fun _ _ => Ok true) false c values) = true.
 Proof. exact (ex_intro _ _ (ex_intro _ _ validate_schema_unchecked_panics)). Qed.
 Print Assumptions C20_schema_walk_refuted.
+
+(* ---- C20_strvals (stretch): the --set parsers over every byte string ---- *)
+
+(* the limits the statements below are about, as they stand in pkg/strvals/parser.go *)
+Theorem C20_strvals_limits_table :
+  strvals_max_index = 65536%Z /\ strvals_max_nested_name_level = 30%Z.
+Proof. exact (conj eq_refl eq_refl). Qed.
+Print Assumptions C20_strvals_limits_table.
+
+(* for every parser mode, every destination table, every input and every value of the
+   limits: parse returns a result or an error — no panic leaves it (the recover() of key)
+   and the recursion of key / listItem never exceeds twice the input length + 2 (never Fatal) *)
+Theorem C20_strvals :
+  forall (cfg : pcfg) (max_index : Z) (max_level : nat) (alloc_limit : Z) (count_items : bool)
+         (dest : vmap) (input : string),
+    match parse cfg true max_index max_level alloc_limit count_items dest input with
+    | Fatal => False
+    | Ret r => no_panic r
+    end.
+Proof. exact parse_safe. Qed.
+Print Assumptions C20_strvals.
+
+(* since f627983 (list items count as nesting levels) the recursion depth is bounded by a
+   constant, 3 * MaxNestedNameLevel + 3 calls, whatever the input *)
+Theorem C20_strvals_depth_bounded :
+  forall (cfg : pcfg) (rec_on : bool) (max_index alloc_limit : Z) (max_level : nat)
+         (d : vmap) (s : string),
+    key cfg rec_on max_index max_level alloc_limit true (3 * max_level + 3) d 0 s <> Fatal.
+Proof.
+  intros cfg r mi al M d s.
+  exact (proj1 (depth_const cfg r mi al M (3 * M + 3) 0)
+               (eq_ind_r (fun n => 3 * n + 3 <= 3 * M + 3) (le_n _) (PeanoNat.Nat.sub_0_r M)) d s).
+Qed.
+Print Assumptions C20_strvals_depth_bounded.
+
+(* found by this check: before f627983 the depth grew with the input — the budget that now
+   suffices for every input is exhausted by 32 list items (on the real code: a fatal,
+   unrecoverable stack overflow for "a" + "[0].a" x 1 000 000) *)
+Theorem C20_strvals_depth_refuted :
+  exists s : string,
+    key (mkCfg MTyped [] []) true 65536 30 1000000 false (3 * 30 + 3) [] 0 s = Fatal /\
+    key (mkCfg MTyped [] []) true 65536 30 1000000 true (3 * 30 + 3) [] 0 s = Ret Err.
+Proof. exact (ex_intro _ deep_items (conj depth_unbounded_before_fix depth_bounded_after_fix)). Qed.
+Print Assumptions C20_strvals_depth_refuted.
+
+(* setIndex under the MaxIndex bound never indexes out of range nor asks make() for more than
+   MaxIndex + 1 elements *)
+Theorem C20_strvals_set_index :
+  forall (max_index alloc_limit : Z) (l : list val) (i : Z) (v : val),
+    (max_index + 1 <= alloc_limit)%Z -> no_panic (set_index_body max_index alloc_limit l i v).
+Proof. exact set_index_body_no_panic. Qed.
+Print Assumptions C20_strvals_set_index.
+
+Example C20_strvals_set_index_hyp_met : (strvals_max_index + 1 <= 2 ^ 40)%Z.
+Proof. exact (Zle_bool_imp_le (strvals_max_index + 1) (2 ^ 40) (eq_refl true)). Qed.
+Print Assumptions C20_strvals_set_index_hyp_met.
+
+(* what the recover() of key and the MaxIndex bound are there for *)
+Theorem C20_strvals_unguarded_refuted :
+  (exists w, parse (mkCfg MTyped [] []) false 65536 30 1000000 true [] "a=x,a[0]=y" = Ret (Panic w)) /\
+  is_panic (set_index_body (2 ^ 62) (2 ^ 40) [] (2 ^ 41) VNull) = true.
+Proof. exact (conj parse_without_recover_panics set_index_unbounded_panics). Qed.
+Print Assumptions C20_strvals_unguarded_refuted.
